@@ -13,8 +13,12 @@ onlyprop=""
 if [ "$1" = "--prop" ]; then onlyprop=$2; set -- ""; fi
 evd=/tmp/selftest-evidence${onlyprop:+-$onlyprop}-$$
 fail=0; n=0
+# SELFTEST_SHARD=i/n: only every n-th patch, starting at the i-th (several shards can run side by side)
+shard_i=${SELFTEST_SHARD%%/*}; shard_n=${SELFTEST_SHARD##*/}; k=0
 for d in selftest/mutants/*/ seeded/*/; do
   [ -f "$d/patch.diff" ] || continue
+  k=$((k+1))
+  if [ -n "$SELFTEST_SHARD" ] && [ $((k % shard_n)) -ne $((shard_i % shard_n)) ]; then continue; fi
   name=$(basename $d)
   case "$name" in *"$1"*) ;; *) continue;; esac
   [ -f "$d/expect.txt" ] || continue
